@@ -154,3 +154,582 @@ KNOWN_KEYS = [
     # (key, predicate on signature dict) -- genuine defects of the pinned tree found by this check;
     # each is reported through Report.violation(key=...) so that a `known:` line turns it into KNOWN-FINDING
 ]
+
+
+# ------------------------------------------------------------------ findings: signature -> key
+def slug(s, n=44):
+    return re.sub(r"[^a-z0-9]+", "-", s.lower()).strip("-")[:n]
+
+
+def api_key(sig):
+    """short, stable key of a defect cluster (root causes known to this check first)"""
+    w, inj = sig["what"], sig["inject_path"]
+    if "taskq.c" in w and "nni_taskq" in w and "null" in w:
+        return "init-failure-fini-null-taskq"
+    if "aio.c" in w and "nni_aio_expire_q" in w:
+        return "aio-sys-init-unchecked"
+    if "null pointer" in w and re.search(r"struct \w+0_sock", w) and "nni_sock_create" in inj:
+        return "sock-create-fini-before-init"
+    if "inproc.c" in w and "inproc_pair" in w:
+        return "inproc-accept-null-pair"
+    if "http_server.c" in w and "nni_http_server" in w:
+        return "http-sconn-init-null-server"
+    if "url.c" in w and "SEGV" in w:
+        return "url-strdup-unchecked"
+    if "nni_list_append" in w and "nni_id_alloc" in inj:
+        return "endpoint-id-alloc-dangling"
+    if "idhash.c" in w and "id < (1ULL << 32)" in w:
+        return "id-alloc32-uninit-assert"
+    if ("deadlock" in w.lower() or sig["verdict"] == "HANG") and "ws_read_finish_msg" in inj:
+        return "ws-finish-msg-relock"
+    if sig["verdict"] == "LEAK" and (":ws" in sig.get("prog", "") or "ws_" in inj or "wstran" in inj):
+        return "ws-send-error-leaks-msg"
+    return "c20-" + slug(re.sub(r"0x[0-9a-f]+|\d+/\d+", "", w)) + "-" + slug(sig["inject_fn"], 20)
+
+
+# ------------------------------------------------------------------ WB: generators
+SIZES = [0, 1, 7, 8, 9, 31, 32, 33, 63, 64, 65, 100, 127, 128, 255, 256, 1000, 1023, 1024, 1025, 2048, 4096]
+SMALL = [0, 1, 2, 3, 4, 7, 8, 9, 16, 24, 30, 31, 32, 33, 40]
+
+
+def rhex(rng, n):
+    return "".join("%02x" % rng.randrange(256) for _ in range(n)) if n else "-"
+
+
+def gen_msg(rng):
+    """message histories that cross the growth boundaries (headroom 32, needed+8 = cap, big aligned sizes)"""
+    lines = []
+    ns = rng.choice([1, 1, 2])
+    for s in range(ns):
+        lines.append("alloc %d %d" % (s, rng.choice(SIZES if rng.random() < 0.6 else SMALL)))
+    for _ in range(rng.randrange(2, 14)):
+        s = rng.randrange(ns)
+        r = rng.random()
+        if r < 0.22:
+            lines.append("insert %d %s" % (s, rhex(rng, rng.choice(SMALL + [41, 48, 64, 100]))))
+        elif r < 0.40:
+            lines.append("append %d %s" % (s, rhex(rng, rng.choice(SMALL + [48, 64, 100, 300]))))
+        elif r < 0.48:
+            lines.append("trim %d %d" % (s, rng.choice(SMALL)))
+        elif r < 0.54:
+            lines.append("chop %d %d" % (s, rng.choice(SMALL)))
+        elif r < 0.60:
+            lines.append("happend %d %s" % (s, rhex(rng, rng.choice([4, 8, 16, 28, 32]))))
+        elif r < 0.68:
+            lines.append("realloc %d %d" % (s, rng.choice(SIZES)))
+        elif r < 0.74:
+            lines.append("reserve %d %d" % (s, rng.choice(SIZES)))
+        elif r < 0.80:
+            k = rng.choice([2, 4, 8])
+            lines.append("%s %d %d %x" % (rng.choice(["appendu", "insertu"]), s, k, rng.getrandbits(8 * k)))
+        elif r < 0.86 and ns > 1:
+            lines.append("dup %d %d" % (s, 1 - s))
+        elif r < 0.91:
+            lines.append("unique %d %d" % (s, rng.choice([0, 1])))
+        elif r < 0.97:
+            lines.append("pullup %d %d" % (s, rng.choice([0, 0, 1])))
+        else:
+            lines.append("clear %d" % s)
+    lines.append("end")
+    return lines
+
+
+def gen_pullup_boundary(rng):
+    """the in-place branch of nni_msg_pull_up at its growth boundary: room for the header but less than 8 spare"""
+    hl = rng.choice([8, 16, 28, 32, 36, 40])
+    ins = rng.choice([20, 26, 28, 30, 31])
+    return ["alloc 0 0", "insert 0 %s" % rhex(rng, ins), "happend 0 %s" % rhex(rng, hl), "pullup 0 0", "end"]
+
+
+def gen_lmq(rng):
+    lines = ["linit %d" % rng.choice([0, 1, 2, 3, 4, 8, 9, 16, 100])]
+    nid = 1
+    for _ in range(rng.randrange(2, 16)):
+        r = rng.random()
+        if r < 0.45:
+            lines.append("lput %d" % nid)
+            nid += 1
+        elif r < 0.65:
+            lines.append("lget")
+        elif r < 0.70:
+            lines.append("lflush")
+        else:
+            lines.append("lresize %d" % rng.choice([0, 1, 2, 3, 4, 5, 8, 9, 16, 17, 64]))
+    lines.append(rng.choice(["lfini", "end"]))
+    if lines[-1] != "end":
+        lines.append("end")
+    return lines
+
+
+def gen_msgq(rng):
+    lines = ["qinit %d" % rng.choice([0, 1, 2, 4, 8, 16])]
+    nid = 1
+    for _ in range(rng.randrange(2, 12)):
+        r = rng.random()
+        if r < 0.55:
+            lines.append("qtryput %d" % nid)
+            nid += 1
+        else:
+            lines.append("qresize %d" % rng.choice([0, 1, 2, 3, 4, 8, 16, 32]))
+    lines.append(rng.choice(["qfini", "end"]))
+    if lines[-1] != "end":
+        lines.append("end")
+    return lines
+
+
+def gen_idmap(rng):
+    lo = rng.choice([1, 1, 0x10, 0x7ffffff0])
+    lines = ["iinit %x %x" % (lo, lo + rng.choice([3, 40, 200, 0xffff]))]
+    keys = []
+    for _ in range(rng.randrange(3, 40)):
+        r = rng.random()
+        if r < 0.40:
+            lines.append("ialloc %x" % rng.randrange(1, 1 << 20))
+        elif r < 0.60:
+            k = rng.choice([rng.randrange(1, 64), rng.randrange(1, 64) * 8, rng.getrandbits(20)])
+            keys.append(k)
+            lines.append("iset %x %x" % (k, rng.randrange(1, 1 << 20)))
+        elif r < 0.85:
+            k = rng.choice(keys) if keys and rng.random() < 0.7 else lo + rng.randrange(0, 30)
+            lines.append("iremove %x" % k)
+        elif r < 0.93:
+            lines.append("iget %x" % (rng.choice(keys) if keys else 5))
+        else:
+            lines.append("ivisit")
+    lines.append("icount")
+    lines.append("ivisit")
+    lines.append(rng.choice(["ifini", "end"]))
+    if lines[-1] != "end":
+        lines.append("end")
+    return lines
+
+
+def gen_idmap_burst(rng):
+    """grow over several resizes, then shrink over several (the refused shrink is ignored)"""
+    n = rng.choice([6, 12, 24, 50, 100])
+    lines = ["iinit 1 ffff"] + ["ialloc %x" % (i + 1) for i in range(n)]
+    order = list(range(1, n + 1))
+    rng.shuffle(order)
+    lines += ["iremove %x" % k for k in order[: rng.randrange(n // 2, n + 1)]]
+    lines += ["ivisit", "end"]
+    return lines
+
+
+URLS = ["tcp://127.0.0.1:4000", "tcp://[::1]:80/a/../b?x=1#f", "ws://user@host.example:8080/some/path", "ipc:///tmp/x.ipc",
+        "inproc://name", "http://www.example.com/", "bogus://x", "tcp://host:99999", "tcp:/nope", "ws://h/%zz",
+        "tcp://127.0.0.1:1/" + "p" * 110, "tcp://127.0.0.1:1/" + "p" * 111, "tcp://127.0.0.1:1/" + "p" * 112,
+        "http://h:80/" + "q" * 200 + "?a=b", "ipc:///" + "d/" * 80, "ws://h:1/" + "%41" * 60, "http://h:80/" + "a/../" * 40]
+
+
+def gen_url(rng):
+    u = rng.choice(URLS)
+    if rng.random() < 0.3:
+        u = "tcp://10.0.0.%d:%d/%s" % (rng.randrange(256), rng.randrange(1, 65536), "x" * rng.choice([0, 5, 100, 109, 110, 111, 112, 113, 300]))
+    lines = ["uparse %s" % u.encode().hex()]
+    r = rng.random()
+    if r < 0.6:
+        lines += ["uclone", rng.choice(["ufree", "ufree2"])]
+    lines.append("end")
+    return lines
+
+
+def gen_sub(rng):
+    topics = ["-", "61", "6162", "616263", "00ff", "78" * 40]
+    lines = ["sopen"]
+    for _ in range(rng.randrange(2, 12)):
+        t = rng.choice(topics)
+        r = rng.random()
+        lines.append(("ssub %s" if r < 0.55 else "sunsub %s" if r < 0.85 else "sprobe %s") % t)
+    for t in topics:
+        lines.append("sprobe %s" % t)
+    lines += ["sclose", "end"]
+    return lines
+
+
+GENS = [("msg", gen_msg, 10), ("pullup", gen_pullup_boundary, 2), ("lmq", gen_lmq, 4), ("msgq", gen_msgq, 3),
+        ("idmap", gen_idmap, 4), ("idmap-burst", gen_idmap_burst, 1), ("url", gen_url, 4), ("sub", gen_sub, 2)]
+
+
+def count_alloc_calls(out_lines):
+    n = 0
+    for l in out_lines:
+        if " | " in l:
+            n += len(re.findall(r"(?:^| )[AX]\d+", l.split(" | ", 1)[1]))
+    return n
+
+
+# ------------------------------------------------------------------ WB: the abstract statement on the C output
+STATE_PART = re.compile(r"(hdr=\S+ body=\S+ cap=\d+|none)$|( len=\d+ cap=\d+ full=\d+ empty=\d+)$|( cap=\d+ len=\d+ alloc=\d+)$|( cap=\d+ count=\d+)$")
+OBJ_OF = {"l": "lmq", "q": "msgq", "i": "idmap", "u": "url", "s": "sub"}
+
+
+def wb_spec_check(case, out):
+    """what the theorems say, evaluated on the implementation's own output: a refused
+    allocation gives NNG_ENOMEM (or the documented fallback) with the object's observable
+    state unchanged, every free matches an allocation, nothing is live at the end.
+    Returns None or (op index, text)."""
+    live = {}
+    last_state = {}
+    ops = [l for l in case if not l.startswith(("oracle", "#"))]
+    if len(out) < len(ops):
+        return (len(out), "output ends early (crash / hang?)")
+    for k, (line, o) in enumerate(zip(ops, out)):
+        t = line.split()
+        op = t[0]
+        if " | " not in o:
+            if o in ("noslot", "noqueue", "nomap", "nourl", "nosock"):
+                continue
+            return (k, "odd output %r" % o)
+        obs, evs = o.split(" | ", 1)
+        refused = False
+        for e in ([] if evs == "-" else evs.split(" ")):
+            kind, sz = e[0], int(e[1:])
+            if kind == "A":
+                live[sz] = live.get(sz, 0) + 1
+            elif kind == "X":
+                refused = True
+            elif kind == "F":
+                if live.get(sz, 0) <= 0:
+                    return (k, "free of %d bytes that no allocation of this case matches" % sz)
+                live[sz] -= 1
+            elif kind == "!":
+                return (k, "block freed with a size other than its allocated size (%d)" % sz)
+        # object identity for the state comparison
+        if op in ("alloc", "dup", "free", "unique", "pullup") or op[0] not in OBJ_OF or op in ("insert", "insertu", "reserve", "realloc", "append", "appendu"):
+            obj = "msg%s" % (t[2] if op == "dup" else t[1] if len(t) > 1 else "")
+        else:
+            obj = OBJ_OF[op[0]]
+        m = STATE_PART.search(obs)
+        state = m.group(0) if m else None
+        rvm = re.match(r"rv=(\d+)", obs)
+        rv = int(rvm.group(1)) if rvm else None
+        if op == "pullup" and rv == 0 and obj in last_state:
+            # header ++ body must survive (with or without a refused allocation)
+            old = re.match(r"hdr=(\S+) body=(\S+)", last_state[obj])
+            new = re.match(r".*hdr=(\S+) body=(\S+)", obs)
+            if old and new:
+                exp = ("" if old.group(1) == "-" else old.group(1)) + ("" if old.group(2) == "-" else old.group(2))
+                got = "" if new.group(2) == "-" else new.group(2)
+                if new.group(1) != "-" or got != exp:
+                    return (k, "nni_msg_pull_up returned a message that is not header++body (header lost)")
+        if refused:
+            if op == "linit":
+                if not (rv == 0 and " cap=2 " in obs + " "):
+                    return (k, "nni_lmq_init with a refused ring must fall back to capacity 2: %s" % obs)
+            elif op == "iremove":
+                if rv != 0:
+                    return (k, "nni_id_remove must ignore a refused shrink: %s" % obs)
+            elif rv != 2:
+                return (k, "allocation refused but rv=%s: %s" % (rv, obs))
+            elif op not in ("alloc", "dup", "qinit", "uparse", "uclone", "unique", "pullup") and state is not None \
+                    and obj in last_state and last_state[obj] != state:
+                return (k, "NNG_ENOMEM but the object changed: %s -> %s" % (last_state[obj], state))
+        if op == "pullup" and rv == 0 and obj in last_state:
+            # header ++ body must survive (with or without a refused allocation)
+            old = re.match(r"hdr=(\S+) body=(\S+)", last_state[obj])
+            new = re.match(r".*hdr=(\S+) body=(\S+)", obs)
+            if old and new:
+                exp = ("" if old.group(1) == "-" else old.group(1)) + ("" if old.group(2) == "-" else old.group(2))
+                got = "" if new.group(2) == "-" else new.group(2)
+                if new.group(1) != "-" or got != exp:
+                    return (k, "nni_msg_pull_up returned a message that is not header++body (header lost)")
+        if state is not None:
+            last_state[obj] = state
+        if op == "end":
+            mm = re.match(r"end live=(\d+)/(\d+)", obs)
+            if not mm or mm.group(1) != "0":
+                return (k, "blocks still live after everything was freed: %s" % obs)
+            # (the tally kept here cannot be compared at the end: the original of a shared
+            #  message leaves the ledger with its other owner; the driver's own count of
+            #  recorded blocks still live, printed above, is the leak check)
+    return None
+
+
+def run_cases_resilient(binpath, cases, timeout=600):
+    """run_cases, restarting after the case that killed the driver; returns (outputs, {case index: (rc, stderr tail)})"""
+    outs = [[] for _ in cases]
+    crashes = {}
+    start = 0
+    while start < len(cases):
+        per, crash = run_cases(binpath, cases[start:], timeout=timeout)
+        for i, o in enumerate(per):
+            outs[start + i] = o
+        if crash is None:
+            break
+        ci = start + crash[0]
+        crashes[ci] = (crash[1], crash[2])
+        for j in range(ci + 1, len(cases)):
+            outs[j] = []
+        start = ci + 1
+    return outs, crashes
+
+
+def with_oracle(case, bits):
+    return ["oracle %s" % bits] + case
+
+
+def run_wb(rep, tier, rng, bdir, replay_case=None):
+    """model and implementation on the same scripts with the same oracle; every k"""
+    cbin, e = wb_build(bdir, "wb_allocfail.c")
+    if cbin is None:
+        raise RuntimeError("wb_allocfail build failed: " + e)
+    mbin = model_bin("modeld_c20")
+    rc, so, se = run_prog(cbin, "sizes\n", timeout=60)
+    sizes = next((l for l in so if l.startswith("sizes ")), None)
+    if sizes is None or re.search(r"=0\b", sizes):
+        raise RuntimeError("could not read struct sizes from the library: %r %s" % (so, se[-300:]))
+    rep.cov["struct_sizes"] = sizes
+
+    def both(cases):
+        ci, crash = run_cases_resilient(cbin, cases, timeout=600)
+        mi, mcrash = run_cases(mbin, [[sizes] + c for c in cases], timeout=600)
+        return ci, crash, mi, mcrash
+
+    if replay_case is not None:
+        cases = [replay_case]
+    else:
+        nbase = {"quick": 60, "thorough": 600}[tier]
+        weights = [w for _, _, w in GENS]
+        cases = []
+        kinds = []
+        for _ in range(nbase):
+            name, g, _ = rng.choices(GENS, weights=weights)[0]
+            cases.append(g(rng))
+            kinds.append(name)
+        cases = load_corpus(PROP) + cases
+        kinds = ["corpus"] * (len(cases) - len(kinds)) + kinds
+    # baseline: no refusal; count the allocator calls of each case
+    ci, crash, mi, mcrash = both(cases)
+    if mcrash:
+        raise RuntimeError("model driver failed: %r" % (mcrash,))
+    variants, origin = [], []
+    for idx, c in enumerate(cases):
+        n = count_alloc_calls(ci[idx])
+        variants.append(c)
+        origin.append((idx, "-"))
+        for k in range(1, n + 1):
+            variants.append(with_oracle(c, "1" * (k - 1) + "0"))
+            origin.append((idx, "k=%d" % k))
+        # several failures in one history: every oracle, not only single failures
+        for _ in range(min(n, 3)):
+            bits = "".join(rng.choice("0111") for _ in range(n + 2))
+            variants.append(with_oracle(c, bits))
+            origin.append((idx, "bits=" + bits))
+    vi, vcrash, vm, vmcrash = both(variants)
+    if vmcrash:
+        raise RuntimeError("model driver failed: %r" % (vmcrash,))
+    nops = 0
+    classes = set()
+    refused_ops = 0
+    div = []
+    for vx, v in enumerate(variants):
+        co, mo = vi[vx], vm[vx]
+        nops += len(co)
+        for line, o in zip([l for l in v if not l.startswith("oracle")], co):
+            ev = o.split(" | ", 1)[1] if " | " in o else ""
+            shape = re.sub(r"\d+", "", ev)
+            classes.add((line.split()[0], shape, re.match(r"rv=\d+", o).group(0) if o.startswith("rv=") else o[:4]))
+            if "X" in ev:
+                refused_ops += 1
+        sc = wb_spec_check(v, co)
+        if co != mo or sc is not None or vx in vcrash:
+            div.append((vx, sc))
+    rep.cov["wb_cases"] = len(cases)
+    rep.cov["wb_variants"] = len(variants)
+    rep.cov["wb_ops_compared"] = nops
+    rep.cov["wb_ops_with_refusal"] = refused_ops
+    rep.cov["wb_distinct_classes"] = len(classes)
+    seen_keys = set()
+    for vx, sc in div[:40]:
+        v = variants[vx]
+        co, mo = vi[vx], vm[vx]
+        first = next((i for i, (a, b) in enumerate(zip(co, mo)) if a != b), min(len(co), len(mo)))
+        txt = "case %s %s\n" % origin[vx] + "\n".join(v) + "\n--- implementation\n" + "\n".join(co) + "\n--- model\n" + "\n".join(mo)
+        if vx in vcrash:
+            txt += "\n--- implementation crashed rc=%s\n%s" % (vcrash[vx][0], vcrash[vx][1][-1500:])
+        path = rep.replay_file("wb_%d.case" % vx, "\n".join(v) + "\n")
+        rep.replay_file("wb_%d.txt" % vx, txt)
+        if sc is not None:
+            # the implementation contradicts the statement of the theorems on this input
+            key = None
+            if "header lost" in sc[1]:
+                key = "pull-up-drops-header"
+            if vx in vcrash and first < len(mo) and mo[first].startswith("CRASH") and "uparse" in " ".join(v):
+                key = "url-strdup-unchecked"      # the faithful model predicts the NULL dereference
+                sc = (sc[0], "nng_url_parse dereferences the NULL result of an unchecked nni_strdup: " + san_summary(vcrash[vx][1]))
+            if key in seen_keys:
+                continue
+            seen_keys.add(key)
+            rep.violation(path, "WB: %s (op %d of %s %s)" % (sc[1], sc[0], kinds[origin[vx][0]] if replay_case is None else "replay", origin[vx][1]), key=key)
+        else:
+            what = "implementation crashed" if vx in vcrash else \
+                "model and implementation differ at op %d: impl %r / model %r" % (first, co[first] if first < len(co) else None, mo[first] if first < len(mo) else None)
+            rep.violation(path, "WB: %s; the statement of the theorems still holds on the implementation's output" % what, nofail=True)
+    return len(variants), len(classes)
+
+
+# ------------------------------------------------------------------ the site table
+def load_scanner():
+    g = {}
+    p = os.path.join(VERIF, "tools", "gen_consts_d", "c20_sites.py")
+    exec(compile(open(p).read(), p, "exec"), g)
+    return g
+
+
+SITE_KEYS = {("nni_aio_sys_init", "nni_zalloc"): "aio-sys-init-unchecked",
+             ("nni_url_parse_inline_inner", "nni_strdup"): "url-strdup-unchecked",
+             ("nni_msg_pull_up", "nni_msg_insert"): "pull-up-drops-header"}
+
+
+def run_sites(rep):
+    g = load_scanner()
+    sites = g["scan_repo"](REPO)
+    stale = g["stale_justifications"](sites)
+    rep.cov["alloc_sites"] = len(sites)
+    rep.cov["alloc_sites_checked_by_scan"] = sum(1 for s in sites if s["scan_checked"])
+    rep.cov["alloc_sites_justified"] = [{"site": "%s:%d %s %s" % (s["file"], s["line"], s["fn"], s["callee"]), "why": s["justified"]}
+                                        for s in sites if s["justified"] and not s["scan_checked"]]
+    unchecked = [s for s in sites if not s["checked"]]
+    rep.cov["alloc_sites_unchecked"] = ["%s:%d %s %s (%s)" % (s["file"], s["line"], s["fn"], s["callee"], s["detail"][:100]) for s in unchecked]
+    for s in unchecked:
+        key = SITE_KEYS.get((s["fn"], s["callee"]))
+        txt = "site table: %s:%d %s: result of %s not tested before its first use (%s)" % (s["file"], s["line"], s["fn"], s["callee"], s["detail"][:120])
+        p = rep.replay_file("site_%s_%d.txt" % (os.path.basename(s["file"]), s["line"]), txt + "\n")
+        # a site the scan flags and no injection run has confirmed yet is reported without a key
+        rep.violation(p, txt, nofail=(key is None), key=key)
+    for k in stale:
+        p = rep.replay_file("site_stale_justification.txt", repr(k) + "\n")
+        rep.violation(p, "site table: the justification for %r no longer matches a flagged site (scanner or source changed)" % (k,), nofail=True)
+    return sites
+
+
+# ------------------------------------------------------------------ API sweep: reporting
+ALL_PROGRAMS = None   # filled from the driver's --list
+
+
+def run_api(rep, tier, rng, bdir):
+    binpath, e = wb_build(bdir, "wb_c20api.c")
+    if binpath is None:
+        raise RuntimeError("wb_c20api build failed: " + e)
+    rc, o, e = sh([binpath, "--list"], timeout=30)
+    allp = o.split()
+    if tier == "quick":
+        progs = [p for p in QUICK_PROGRAMS if p in allp]
+    else:
+        progs = allp
+    t0 = time.time()
+    base, runs = api_sweep(binpath, progs, rep)
+    rep.cov["api_programs"] = progs
+    rep.cov["api_runs"] = len(runs)
+    rep.cov["api_wall_s"] = round(time.time() - t0, 1)
+    rep.cov["api_alloc_counts"] = {p: sorted(set(r["count"] for r in base[p] if r["count"] is not None)) for p in progs}
+    # the programs must work without any fault, otherwise nothing is learnt
+    for p in progs:
+        bad = [r for r in base[p] if r["verdict"] != "OK"]
+        if len(bad) == len(base[p]):
+            r = bad[0]
+            path = rep.replay_file("api_baseline_%s.txt" % slug(p), r["out"] + "\n" + r["err"][-3000:])
+            rep.violation(path, "API program %s does not run cleanly WITHOUT any injected failure (%s %s)" % (p, r["verdict"], r["step"]), nofail=True)
+    # sized free: a block freed with another size than it was allocated with (independent of any fault)
+    bs = [r for p in progs for r in base[p] if r["badsize"]]
+    if bs:
+        r = bs[0]
+        sizes = sorted(set(re.findall(r"BADSIZE allocated (\d+) freed as (\d+)", "\n".join(x["err"] for x in bs))))
+        path = rep.replay_file("api_badsize.txt", r["err"][:3000])
+        rep.violation(path, "allocator contract: blocks freed with a size other than their allocated size, without any fault "
+                      "(allocated, freed) = %s -- nni_sock s_size is never set" % sizes[:6], key="sock-free-size-zero")
+    clusters = {}
+    hit = 0
+    past = 0
+    for r in runs:
+        if r["hit"] == 0 and r["verdict"] == "OK":
+            past += 1
+            continue
+        if r["hit"]:
+            hit += 1
+        if r["verdict"] == "OK":
+            continue
+        if r["hit"] == 0:
+            # not OK although nothing was injected: environment (port in use), not a finding
+            rep.cov.setdefault("api_env_anomalies", []).append("%s k=%d %s %s" % (r["prog"], r["k"], r["verdict"], r["step"][:50]))
+            continue
+        sig = api_signature(binpath, r)
+        sig["prog"] = r["prog"]
+        key = api_key(sig)
+        clusters.setdefault(key, []).append((r, sig))
+    rep.cov["api_faults_injected"] = hit
+    rep.cov["api_k_past_the_end"] = past
+    rep.cov["api_clusters"] = {k: {"runs": len(v), "what": v[0][1]["what"], "inject": v[0][1]["inject_path"],
+                                   "examples": ["%s k=%d" % (x[0]["prog"], x[0]["k"]) for x in v[:5]]} for k, v in clusters.items()}
+    for key, v in sorted(clusters.items()):
+        r, sig = v[0]
+        txt = ("API fault enumeration: %s\n  failed allocation: %s\n  %d run(s), e.g. %s\n  reproduce: %s %s %d %d"
+               % (sig["what"], sig["inject_path"], len(v), ", ".join("%s k=%d" % (x[0]["prog"], x[0]["k"]) for x in v[:4]),
+                  binpath, r["prog"], r["k"], r["k"]))
+        path = rep.replay_file("api_%s.txt" % slug(key), txt + "\n\n" + r["out"][-2000:] + "\n" + r["err"][-6000:] +
+                               "\ninjected-failure stack:\n  " + "\n  ".join(sig["inject_stack"]))
+        rep.violation(path, txt, key=key)
+    return len(runs), len(clusters)
+
+
+# ------------------------------------------------------------------ entry point
+def run(tier, seed, replay=None):
+    rep = Report(PROP, tier, seed, level="proof (modelled allocation sites only) + site table (shape) + fault enumeration (not proof)")
+    if os.environ.get("C20_EXTRA_KNOWN"):     # self-test only: treat the proposed known: lines as accepted
+        for l in open(os.environ["C20_EXTRA_KNOWN"]):
+            m = re.match(r"known:\s+property=C20\s+key=(\S+)\s+(.*)", l.strip())
+            if m:
+                rep.known[m.group(1)] = m.group(2)
+    rng = random.Random(seed)
+    rep.assumptions = [
+        "theorems are about the Gallina wrappers of coq/AllocFail; the tie to the C is the white-box comparison "
+        "(same script, same oracle, ledgers with sizes compared) -- differential testing, not proof",
+        "proof covers ONLY: message.c (msg alloc/dup/grow/unique/pull_up), idhash.c id_resize, lmq.c resize/init, "
+        "msgqueue.c init/resize, url.c parse/clone allocations, sub.c subscribe, the lock held by ws_read_finish_msg",
+        "struct sizes are parameters of the theorems; the harness reads them from the library's own allocations",
+        "the site table is a syntactic scan (regenerated every run) with a hand-read justification table",
+        "the k-sweep over API programs is fault enumeration: one failure at a time, allocation order of background "
+        "threads varies between runs; a k that was not reached in one run may be reached in another",
+    ]
+    ok, msg = gen_consts("c20")
+    if not ok:
+        p = rep.replay_file("gen_consts.txt", msg)
+        rep.violation(p, "gen_consts: pattern(s) no longer found: " + msg, nofail=True)
+        return rep.finish()
+    cb = coq_build("Properties_C20")
+    rep.proof_cov(cb, "make Props/Properties_C20.vo; coqc -Q . NngV Props/Properties_C20.v")
+    gate = coq_gate()
+    if not cb["ok"] or gate:
+        cb.setdefault("failed_at", []).extend(gate)
+        proof_broken_report(rep, cb, "Properties_C20 does not check (or the gate found a forbidden word)")
+    flags = {}
+    ctxt = open(os.path.join(COQ, "Gen", "Consts.v")).read()
+    for n in ("URL_STRDUP_CHECKED", "WS_FINISH_RELOCK_FIXED", "PULL_UP_INSERT_CHECKED"):
+        m = re.search(r"Definition %s : bool := (\w+)" % n, ctxt)
+        flags[n] = m.group(1) if m else "?"
+    rep.cov["source_form_flags"] = flags
+    rep.cov["rule"] = ("WB: distinct (op, ledger shape, rv) classes over all variants (every k of every case + multi-failure "
+                       "oracles); API: one process per (program, k), every k up to the allocation count of the program")
+    sites = run_sites(rep)
+    model_build("c20")
+    bdir, e = nng_build("asan")
+    if bdir is None:
+        p = rep.replay_file("nng_build.txt", e[-4000:])
+        rep.violation(p, "the library does not build", nofail=True)
+        return rep.finish()
+    replay_case = None
+    if replay:
+        replay_case = [l.strip() for l in open(replay) if l.strip() and not l.startswith("#")]
+    nv, ncl = run_wb(rep, tier, rng, bdir, replay_case)
+    nr, ncl2 = (0, 0)
+    if not replay:
+        nr, ncl2 = run_api(rep, tier, rng, bdir)
+    rep.cov["evaluations"] = rep.cov.get("wb_ops_compared", 0) + nr
+    rep.cov["distinct_nontrivial"] = ncl + len(rep.cov.get("api_alloc_counts", {}))
+    rep.cov["samples"] = ["wb variants %d" % nv, "api runs %d" % nr]
+    return rep.finish()
+
+
+if __name__ == "__main__":
+    t = sys.argv[1] if len(sys.argv) > 1 else "quick"
+    sys.exit(run(t, int(os.environ.get("VERIF_SEED", "1"))))
